@@ -58,10 +58,13 @@ V12_EXPORTS = ["V12_sections.encode_exports.*", "V12_sections.fn:Module::encode_
 V12_START = ["V12_sections.encode_start.*", "V12_sections.fn:Module::encode_start"]
 V12_DATA = ["V12_sections.encode_data_segments.*", "V12_sections.fn:Module::encode_data_segments"]
 V12_GLOBALS = ["V12_sections.encode_globals.*", "V12_sections.fn:Module::encode_globals", "V12_sections.fn:ModuleGlobals::iter_mut", "V12_sections.fn:Global as GetID::get_id"]
+V12_IMPORTS = ["V12_sections.encode_imports.*", "V12_sections.fn:Module::encode_imports", "V12_sections.fn:ModuleImports::iter", "V12_sections.fn:Import::is_function"]
 V12_CUSTOM = ["V12_sections.encode_custom_sections.*", "V12_sections.fn:Module::encode_custom_sections", "V12_sections.fn:CustomSections::iter"]
 V12_TRUST = ["TRUSTED model of the wasm-encoder section builders (V12): an export / data / custom section under construction is the sequence of entries handed to it; ExportKind::from(ExternalKind) is faithful; InitExpr::to_wasmencoder_type is faithful (numeric constants: Kani K4)",
              "V12 names three expressions of the data loop and one statement of the custom-section loop by rule R11 (iterator adapters / generic builders are outside Verus): their contracts are assumed; V12 assumes the InitInstr::fix_id_mapping contract that V3 proves",
              "rule R16: the loops / statements are cut out of encode_internal by text anchors and wrapped in declared headers; the side-effect records they also build (C23) are not specified"]
+V11_CODE = ["V11_emit.encode_code_section.*", "V11_emit.fn:Module::encode_code_section", "V11_emit.fn:Functions::is_deleted", "V11_emit.fn:Functions::get_kind", "V11_emit.fn:Functions::get_mut",
+            "V11_emit.fn:Function::unwrap_local_mut", "V11_emit.fn:FuncKind::unwrap_local_mut"] + V11_EMIT
 V11_TRUST = ["TRUSTED model of wasm-encoder (V11): a function body under construction is the sequence of operators handed to Function::instruction; RoundtripReencoder::instruction converts each operator faithfully (the nested fn `encode` is assumed)",
              "V11 assumes the contract of fix_op_id_mapping that unit V3 proves (same clause text); wasmparser's derived Clone for Operator yields an equal value"]
 
@@ -140,7 +143,7 @@ PROPS = {
             "V3_remap.refers_to_func.*", "V3_remap.fn:refers_to_func", "V3_remap.update_fn_instr.*", "V3_remap.fn:update_fn_instr",
             "V3_remap.fix_op_id_mapping.*", "V3_remap.fn:fix_op_id_mapping", "V3_remap.InitInstr.*", "V3_remap.fn:InitInstr::fix_id_mapping",
             "V3_remap.fn:lemma_families_disjoint"],
-        "obligations_extra": V12_EXPORTS + V12_START + V12_DATA + ["V11_emit.fn:encode_function_body", "V11_emit.update_ids_and_encode.*", "V11_emit.fn:update_ids_and_encode"],
+        "obligations_extra": V12_IMPORTS + V12_EXPORTS + V12_START + V12_DATA + ["V11_emit.fn:encode_function_body", "V11_emit.update_ids_and_encode.*", "V11_emit.fn:update_ids_and_encode"],
         "glue": V11_TRUST + V12_TRUST + [ENCODE_GLUE, "export / start / element-segment remapping lines in encode_internal", "'output validates' (wasmparser validator) is not decided"],
         "design_ref": "DESIGN.md §4 V2 V3, §5 C06",
     },
@@ -169,7 +172,7 @@ PROPS = {
         "units": ["V2_reindex", "V3_remap", "V6_api", "V6b_api2", "V11_emit", "V12_sections"],
         "obligations": V2_GENERIC + v2_inst("Function", "Functions") + v2_inst("Global", "ModuleGlobals") + v2_inst("Memory", "Memories") + V6_DELETES + [
             "V3_remap.update_*_instr.*", "V3_remap.fn:update_*_instr", "V3_remap.fn:InitInstr::fix_id_mapping"],
-        "obligations_extra": V12_EXPORTS + V12_START + ["V11_emit.fn:encode_function_body", "V11_emit.update_ids_and_encode.*", "V11_emit.fn:update_ids_and_encode"],
+        "obligations_extra": V11_CODE + V12_EXPORTS + V12_START + ["V11_emit.fn:encode_function_body", "V11_emit.update_ids_and_encode.*", "V11_emit.fn:update_ids_and_encode"],
         "glue": V11_TRUST + V12_TRUST + [ENCODE_GLUE, "ModuleExports::delete / ModuleImports::delete flags are honoured by emission loops in encode_internal",
                  "'fails loudly': update_* are proved panic-free exactly when every referenced id has an image; the converse (a missing image panics rather than writing an index) is by inspection of the three `None => panic!` arms"],
         "design_ref": "DESIGN.md §4 V2 V3, §5 C09",
@@ -216,18 +219,19 @@ PROPS = {
     },
     "C29": {
         "title": "Names stay attached to their entities",
-        "units": ["V6_api", "V2_reindex"],
+        "units": ["V6_api", "V2_reindex", "V12_sections", "V11_emit"],
         "obligations": ["V6_api.set_fn_name.*", "V6_api.fn:Module::set_fn_name", "V6_api.Functions.set_local_fn_name.*", "V6_api.Functions.set_imported_fn_name.*",
                         "V6_api.fn:Functions::set_local_fn_name", "V6_api.fn:Functions::set_imported_fn_name", "V6_api.ModuleImports.set_name.*", "V6_api.fn:ModuleImports::set_name",
                         "V6_api.ModuleImports.set_fn_name.*", "V6_api.fn:ModuleImports::set_fn_name", "V6_api.fn:Import::is_function", "V6_api.fn:lemma_fn_imports_before_monotone",
                         "V2_reindex.recalculate_ids.live_items_stay_bound", "V2_reindex.reorganise_generic.*", "V2_reindex.fn:reorganise_generic"],
-        "glue": [ENCODE_GLUE, "TRUSTED axiom (ModuleImports::set_fn_name): the elements a dropped slice::IterMut has not yielded keep their values", "function names travel inside the Function / Body / Import items that V2 proves are permuted, never rebuilt; emission of the name section is glue",
+        "obligations_extra": V11_CODE + V12_IMPORTS,
+        "glue": V12_TRUST + [ENCODE_GLUE, "TRUSTED axiom (ModuleImports::set_fn_name): the elements a dropped slice::IterMut has not yielded keep their values", "function names travel inside the Function / Body / Import items that V2 proves are permuted, never rebuilt; emission of the name section is glue",
                  "stored local-name and global-name maps (IndirectNameMap / NameMap) are re-emitted verbatim by encode_internal and are NOT re-indexed (seen while reading; not decidable by these checks)"],
         "design_ref": "DESIGN.md §5 C29",
     },
     "C12": {
         "title": "Built functions appear exactly as built",
-        "units": ["V4_inject", "V1_locals", "V6_api", "V7_types"],
+        "units": ["V4_inject", "V1_locals", "V6_api", "V7_types", "V11_emit"],
         "obligations": ["V6_api.finish_module.*", "V6_api.fn:FunctionBuilder::finish_module_with_tag", "V6_api.add_local_func.*", "V6_api.fn:Module::add_local_func_with_tag",
                         "V6_api.Functions.add_local_func.*", "V6_api.fn:Functions::add_local_func", "V6_api.fn:LocalFunction::new", "V6_api.LocalFunction.*",
                         "V6_api.kf.convert_local_fn_to_import.keeps_function_space_well_formed",
@@ -235,7 +239,8 @@ PROPS = {
                         "V4_inject.FunctionBuilder.*", "V4_inject.fn:FunctionBuilder as Inject::inject", "V4_inject.Body.*", "V4_inject.fn:Body::push_op", "V4_inject.fn:Body::end",
                         "V4_inject.fn:Instruction::new",
                         "V1_locals.fn:FunctionBuilder as AddLocal::add_local", "V1_locals.add_local.*", "V1_locals.fn:add_local", "V1_locals.fn:lemma_*"],
-        "glue": ["the code-section / function-section / name-section emission loops in encode_internal are not under contract",
+        "obligations_extra": V11_CODE,
+        "glue": V11_TRUST + ["the code-section / function-section / name-section emission loops in encode_internal are not under contract",
                  "FunctionBuilder::set_name and finish_component_with_tag are not under contract",
                  "in unit V6 the Opcode::end helper and ModuleTypes::add_func_type are assumed with the contracts proved in V9 and V7"],
         "design_ref": "DESIGN.md §5 C12",
@@ -338,10 +343,11 @@ PROPS = {
     },
     "C14": {
         "title": "Added locals get fresh indices of the requested type",
-        "units": ["V1_locals"],
+        "units": ["V1_locals", "V11_emit"],
         "obligations": ["V1_locals.*"],
         "kani": [],
-        "glue": ["emission of the locals vector in Module::encode_internal (one loop over body.locals)",
+        "obligations_extra": V11_CODE,
+        "glue": V11_TRUST + ["emission of the locals vector in Module::encode_internal (one loop over body.locals)",
                  "ModuleIterator / ComponentIterator add_local forwarders (one-line delegations to Functions::add_local)"],
         "design_ref": "DESIGN.md §4 V1, §5 C14",
     },
